@@ -271,11 +271,14 @@ class ParamsGenerator:
       if len(tensors) == 1:
         # A constant read by one op can still have a second reader: the graph
         # output. Both must agree on how the single copy of the data is stored.
-        tensor_params = self.model_quant_results[
+        tensor_params = self.model_quant_results.get(
             tfl_flatbuffer_utils.get_tensor_name(tensors[0])
-        ]
-        if not _compatible_tensor_transformation_params(
-            tensor_params, tensor_params
+        )
+        # An operand the algorithm ignores (e.g. a shape operand) has no request.
+        if tensor_params is not None and not (
+            _compatible_tensor_transformation_params(
+                tensor_params, tensor_params
+            )
         ):
           raise RuntimeError(
               f'The tensor {tensors[0].name} is read by an op and is a graph'
@@ -320,10 +323,10 @@ class ParamsGenerator:
         if self.flatbuffer_model.buffers[tensor.buffer].data is None:
           continue
         for sharer in self.buffer_to_tensors.get(tensor.buffer, []):
-          sharer_params = self.model_quant_results[
+          sharer_params = self.model_quant_results.get(
               tfl_flatbuffer_utils.get_tensor_name(sharer)
-          ]
-          if any(
+          )
+          if sharer_params is not None and any(
               consumer.transformations[0] in rewriting_transformations
               for consumer in sharer_params.consumers or []
           ):
